@@ -60,6 +60,11 @@ def match_known(known, prop, sig):
 def _exec_one(scen, case, seed, choices, last=True):
     from simos import state
     try:
+        # the case as a replay file holds it: a generated case shares sub-objects (the same list or string
+        # object in several places) and pickle writes a shared object once, so the number of bytes a task takes
+        # on the simulated pipe - and with it the event log - would differ between the run that found a
+        # violation and the replay of its file
+        case = json.loads(json.dumps(case))
         res = scen.execute(case, seed, choices)
     except BaseException as exc:       # noqa
         res = {'error': ''.join(traceback.format_exception(type(exc), exc, exc.__traceback__))[-4000:]}
@@ -158,7 +163,7 @@ def run_forked(scen, case, seed, choices=None, wall=RUN_WALL_LIMIT):
 
 
 def run_inproc(scen, case, seed, choices=None):
-    return scen.execute(case, seed, choices)
+    return scen.execute(json.loads(json.dumps(case)), seed, choices)
 
 
 def _import_scen(name):
@@ -277,7 +282,28 @@ def replay_file(path, src=None):
 
 
 def _digest_chunk(scen_name, prop, tier, base_seed, indices, src):
-    out = _worker_chunk(scen_name, prop, tier, base_seed, indices, src)
+    if os.environ.get('VERIF_DIGEST_VIA_FILE'):
+        # the same runs, but each one written out as a replay file and executed from that file, alone in its
+        # forked child: what somebody who is handed the file does
+        import tempfile
+        if src and src not in sys.path:
+            sys.path.insert(0, src)
+        scen = _import_scen(scen_name)
+        out = []
+        d = tempfile.mkdtemp(prefix='billiard-verif-dg-', dir='/var/tmp')
+        try:
+            for i in indices:
+                seed = H(base_seed, prop, i)
+                case = scen.generate(random.Random(seed), tier, prop)
+                path = write_replay(prop, scen_name, case, seed, None, {}, 'selftest-%d' % i, outdir=d)
+                _rep, res = replay_file(path)
+                os.unlink(path)
+                out.append((i, seed, None, res))
+        finally:
+            import shutil
+            shutil.rmtree(d, ignore_errors=True)
+    else:
+        out = _worker_chunk(scen_name, prop, tier, base_seed, indices, src)
     return [(i, res.get('digest') or ('ERR:' + str(res.get('error'))[-200:]), res.get('steps'),
              sorted(v['sig'] for v in res.get('violations', ()))) for i, seed, case, res in out]
 
